@@ -11,11 +11,12 @@ LEVEL = "other"
 EXPLANATION = (
     "Static analysis of the public setters of At4/At5 Zone and AirConditioner: R1 every transmission is dominated by the valid branch of the "
     "setter's validity test (membership in the supported set, 0 <= pct <= 100 as an interval derived from the dominating comparisons, sensor "
-    "present) and the invalid branch raises ValueError without reaching a send; R2 the supported sets are derived from the ability record "
-    "through the API->control tables; R3 exactly one transmission on every normal path of each setter and private sender; R4 the set-point that "
-    "reaches the message is round(t) (AT4) / round(t, 1) (AT5) and, for air-conditioners, clamp(min, ., max) with the min/max getters in the "
-    "right positions (shape recognition of min/max nests); R5 the timer pair: the named timer takes the new state, the other one is copied from "
-    "the last reported status (IfExp evaluated for both timer types), both in one record for self.ac_id."
+    "present) and the invalid branch raises ValueError without reaching a send; R2 the supported sets are derived from the ability record through"
+    " the API->control tables and recomputed on every call (plain @property, never cached: the AT4 turbo flag arrives with every status); R3 "
+    "exactly one transmission on every normal path of each setter and private sender; R4 the set-point that reaches the message is round(t) (AT4)"
+    " / round(t, 1) (AT5) and, for air-conditioners, clamp(min, ., max) with the min/max getters in the right positions (shape recognition of "
+    "min/max nests); R5 the timer pair: the named timer takes the new state, the other one is copied from the last reported status (IfExp "
+    "evaluated for both timer types), both in one record for self.ac_id."
 )
 ASSUMPTIONS = ["round() is Python's banker's rounding; ties are outside the decided clauses"]
 FLOORS = {"C11.R1": 12, "C11.R2": 8, "C11.R3": 18, "C11.R4": 6, "C11.R5": 8}
